@@ -27,3 +27,31 @@ Example C03_example :
   expand l 3 (- 3) = Ok (Complemented (Ordered [Ranged 1 3 false true; Point 3])) /\
   del_den 3 3 (den l) = [(3, true); (2, true); (1, true)].
 Proof. vm_compute. repeat split; reflexivity. Qed.
+
+(* the metadata clause: REFERENCE base ranges of a slice (GenBankFields.Slice,
+   model refs_slice).  A kept range is the old range cut to the window and
+   re-based, never empty and never outside the slice; a range is kept exactly
+   when it shares a base with the window (so nothing survives an empty
+   window); the kept references are numbered 1, 2, 3, ... *)
+From GTS Require Import GenBank GenBankProofs.
+Theorem C03_reference_range_clipped : forall start end_ s e, start <= end_ -> s < e ->
+  kept start end_ s e = true ->
+  let h := go_Max 0 (s - start) in let t := go_Min (end_ - start) (e - start) in
+  h + start = Z.max s start /\ t + start = Z.min e end_ /\ 0 <= h < t /\ t <= end_ - start.
+Proof. exact clip_is_intersection. Qed.
+Print Assumptions C03_reference_range_clipped.
+
+Theorem C03_reference_kept_iff_overlapping : forall start end_ s e, start <= end_ -> s < e ->
+  kept start end_ s e = true <-> (Z.max s start < Z.min e end_).
+Proof. exact kept_only_overlapping. Qed.
+Print Assumptions C03_reference_kept_iff_overlapping.
+
+Theorem C03_reference_dropped_iff_disjoint : forall start end_ locs,
+  clip_ranges start end_ locs = [] <-> Forall (fun '(s, e) => kept start end_ s e = false) locs.
+Proof. exact clip_empty_iff. Qed.
+Print Assumptions C03_reference_dropped_iff_disjoint.
+
+Theorem C03_references_renumbered : forall mol start end_ refs rs,
+  refs_slice mol start end_ refs = Ok rs -> map r_number rs = zrange 1 (1 + zlen rs).
+Proof. exact refs_slice_numbered. Qed.
+Print Assumptions C03_references_renumbered.
